@@ -83,7 +83,7 @@ ASSUMPTIONS = [
 ]
 FAULT_KINDS = ["scribble-on-yielded-context", "scribble-on-filled-value", "branch-stops-mid-block",
                "request-at-drawn-point"]
-EXPECTED_PROBES = ["split-run", "split-fill-compute", "split-fill-request", "zip-compute", "zip-request",
+EXPECTED_PROBES = ["bare-accumulator-branch", "bare-accumulator-followed-by-a-fill-compute-branch-not-last", "split-run", "split-fill-compute", "split-fill-request", "zip-compute", "zip-request",
                    "three-or-more-branches", "multi-block", "stopping-branch-not-last",
                    "acc-empty-context-yielded", "acc-wrapper", "scribble-then-compute",
                    "compute-twice-no-fill", "makefilename-in-two-branches", "nested-split-or-zip-branch",
@@ -296,6 +296,41 @@ class UPicked(object):
         return value
 
 
+class BareCount(lena.flow.Count):
+    """a bare accumulator given to Split as a branch (no sequence around it): a Count that
+    remembers what it was handed and tags its results with its branch"""
+
+    def __init__(self, b, store):
+        lena.flow.Count.__init__(self, "n%d" % b)
+        self._b = b
+        self._store = store
+
+    def fill(self, value):
+        self._store.append(value)
+        lena.flow.Count.fill(self, value)
+
+    def compute(self):
+        for r in lena.flow.Count.compute(self):
+            yield ("B", self._b, r)
+
+
+class BareStore(lena.flow.StoreFilled):
+    """the same with StoreFilled"""
+
+    def __init__(self, b, store):
+        lena.flow.StoreFilled.__init__(self)
+        self._b = b
+        self._store = store
+
+    def fill(self, value):
+        self._store.append(value)
+        lena.flow.StoreFilled.fill(self, value)
+
+    def compute(self):
+        for r in lena.flow.StoreFilled.compute(self):
+            yield ("B", self._b, r)
+
+
 class Tagger(object):
     def __init__(self, b):
         self.b = b
@@ -434,6 +469,11 @@ def gen_split(tape, sc):
         br.nested = None
         if br.kind in ("fc", "fr") and br.slice is None and tape.chance(1, 5, "nested-branch"):
             br.nested = tape.choice(["Split", "Zip"], "nested-kind")
+        # the branch is a bare accumulator element, nothing in front of it and nothing behind
+        br.bare = None
+        if br.kind == "fc" and br.nested is None and br.slice is None and sc.shape == "pair" \
+                and tape.chance(1, 4, "bare-accumulator-branch"):
+            br.bare = tape.choice(["count", "store"], "bare-acc")
         sc.branches.append(br)
     # the contexts are plain dictionaries or lena.context.Context objects (a dict subclass)
     sc.ctx_class = lena.context.Context if tape.chance(1, 4, "context-class") else dict
@@ -468,6 +508,8 @@ def build_branch(sc, b, store, sub=0):
     if br.kind == "source":
         # a branch that does not read the flow
         return [lambda: iter([([900 + k], {"src": {"i": 900 + k}, "tags": []}) for k in range(2)]), Tagger(b)]
+    if getattr(br, "bare", None):
+        return [BareCount(b, store) if br.bare == "count" else BareStore(b, store)]
     els = [Recorder(store)]
     muts = []
     for j, m in enumerate(br.muts):
@@ -518,6 +560,8 @@ def build_branch(sc, b, store, sub=0):
 def as_seq(sc, b, els, store=None):
     br = sc.branches[b]
     k = br.kind
+    if getattr(br, "bare", None):
+        return els[0]
     if getattr(br, "nested", None) and store is not None:
         one = as_seq(sc, b, els)
         two = as_seq(sc, b, build_branch(sc, b, store, sub=1))
@@ -577,6 +621,10 @@ def run_split(tape, res, sc):
     for b, br in enumerate(sc.branches):
         if br.nested:
             res.probe("nested-split-or-zip-branch")
+        if getattr(br, "bare", None):
+            res.probe("bare-accumulator-branch")
+            if b + 2 < sc.nb and (getattr(sc.branches[b + 1], "bare", None) or sc.branches[b + 1].kind == "fc"):
+                res.probe("bare-accumulator-followed-by-a-fill-compute-branch-not-last")
         res.say("  branch %d: %s%s %s%s%s" % (b, br.kind, (" nested in a %s of two copies" % br.nested) if br.nested else "",
                                              "+".join(br.muts),
                                            (" -> %s" % br.acc) if br.acc else "",
